@@ -41,7 +41,7 @@ def c20(tier):
     vlib.standard("C20", tier, "c20", CRASH_COQ + ["Properties_C20.v"], assume=CRASH_ASSUME, trusted=CRASH_TRUSTED)
 
 
-CRASH_COQ = ["Proofs_Checkers.v", "Proofs_Witnesses.v"]
+CRASH_COQ = ["Proofs_Checkers.v", "Proofs_Checkers2.v", "Proofs_Walkers.v", "Proofs_Comments.v", "Proofs_Witnesses.v"]
 FW_TRUSTED = ["go/parser, go/types, golang.org/x/tools/go/packages (loading of the corpus); the ruleguard engine and astutil.Apply are observed, not modelled",
               "harness/internal/fw: corpus loader, warning projection (offset/text/fix), structural fingerprint (unit-tested in fingerprint_test.go)"]
 
